@@ -25,7 +25,7 @@ def fl(a):
 
 def call(c):
     k = int(c['nord'])
-    xs = np.array(c['xs'], dtype='d')
+    xs = np.array(c['xs'], dtype='d')            # handed to the constructor; compared afterwards
     opt = c['opt']
     kw = {'nord': k, 'bkspread': float(c.get('bkspread', 1.0))}
     kind = opt['kind']
@@ -82,13 +82,45 @@ def call(c):
         out['xe'] = fl(xe)
         perm = xe.argsort()
         out['perm'] = [int(i) for i in perm]
+        xarg = xe.copy()                      # the caller's array: must come back bit-identical
         with warnings.catch_warnings():
             warnings.simplefilter('ignore')
-            yy, mask = b.value(xe.copy())
+            yy, mask = b.value(xarg)
             xsrt = xe[perm]
             indx = b.intrv(xsrt)
             bs = b.bsplvn(xsrt, indx)
             act, lower, upper = b.action(xsrt)
+        out['args_mutated'] = [nm for nm, a0, a1 in (('value.x', xe, xarg), ('bspline.x', np.array(c['xs'], dtype='d'), xs))
+                               if not np.array_equal(a0, a1)]
+        out['result_aliases_arg'] = bool(np.shares_memory(yy, xarg) or np.shares_memory(mask, xarg))
+        # ---- history on the same object: change knots and coefficients (in place or by assignment), evaluate again
+        h = c.get('history')
+        if h:
+            try:
+                shift = span * float(h.get('shift', 0.125))
+                newbk = (bk64 + shift).astype(bk.dtype)
+                newco = np.array(c['coeff'][nc:2 * nc], dtype='d')
+                if h.get('mode') == 'inplace':
+                    b.breakpoints[:] = newbk
+                    b.coeff[:] = newco
+                else:
+                    b.breakpoints = newbk.copy()
+                    b.coeff = newco.copy()
+                xe2 = xe + shift if h.get('follow', True) else xe.copy()
+                perm2 = xe2.argsort()
+                with warnings.catch_warnings():
+                    warnings.simplefilter('ignore')
+                    yy2, mask2 = b.value(xe2.copy())
+                    indx2 = b.intrv(xe2[perm2])
+                    bs2 = b.bsplvn(xe2[perm2], indx2)
+                    _a, lower2, upper2 = b.action(xe2[perm2])
+                out['hist'] = {'bk': fl(np.asarray(b.breakpoints)), 'coeff': fl(newco), 'xe': fl(xe2), 'perm': [int(i) for i in perm2],
+                               'yy': fl(yy2), 'mask': [bool(v) for v in mask2], 'indx': [int(v) for v in indx2],
+                               'bs': [fl(row) for row in np.asarray(bs2)], 'lower': [int(v) for v in lower2],
+                               'upper': [int(v) for v in upper2],
+                               'finite': bool(np.all(np.isfinite(yy2)) and np.all(np.isfinite(bs2)))}
+            except Exception as e:  # noqa: BLE001
+                out['hist'] = err(e)
         out['yy'] = fl(yy)
         out['mask'] = [bool(v) for v in mask]
         out['indx'] = [int(v) for v in indx]
